@@ -207,6 +207,11 @@ def run_enumerated(rec, module, conds, procs=None, budget_s=600):
                 point = {}
             argtext = ", ".join("%s=%r" % kv for kv in point.items())
             ok, rtxt = replay(module, c["fn"], argtext)
+            if not ok:
+                # the failure may depend on what was evaluated before in the same process (hidden state): replay the whole sweep
+                c2, out2, _ = job(c)
+                ok = out2 == out
+                rtxt = "single call passes, but the sweep in a fresh process fails again at the same point: the result depends on earlier calls (%s)" % out2[:120] if ok else rtxt
             rec.violation(c.get("sig", "%s.%s" % (module, c["fn"])), "%s: counterexample %s(%s) -> %s" % (c.get("viol", c.get("what", c["fn"])), c["fn"], argtext, rtxt),
                           {"module": module, "function": c["fn"], "args": point, "replay": rtxt}, replayed=ok)
         else:
